@@ -42,9 +42,12 @@ def length(draw, lo=0.2, hi=5.0, wide=False):
     if k <= 3:
         v = draw(st.sampled_from([1.0, 2.0, 0.5, 3.0, 1.5, 4.0, 2.5, 0.25, 5.0]))
         return min(max(v, lo), hi)
-    if k <= 7:
-        return draw(st.integers(max(1, int(lo * 10)), int(hi * 10))) / 10.0
-    if wide:
+    if hi <= lo:
+        return float(lo)
+    if k <= 7 and int(hi * 10) >= max(1, int(math.ceil(lo * 10))):
+        return draw(st.integers(max(1, int(math.ceil(lo * 10))),
+                                int(hi * 10))) / 10.0
+    if wide and k == 9:
         e = draw(st.floats(-2.0, 2.0))
         return float(10.0 ** e)
     return draw(st.floats(lo, hi, allow_nan=False, allow_infinity=False))
